@@ -269,7 +269,8 @@ def r2(ctx):
             entries = [(pth, v) for pth, v in entries if not (v[0] == "loopvar" and v[1] == h and not any(e[0] == "i" for e in pth))]
             zob_new = eng3.freeze(lf.state, zv)
             carried = [t_ for t_ in xor_terms(zob_new) if t_[0] == "loopvar" and t_[1] == h and t_[2] == (zl, ())]
-            hash_changed = not (zob_new[0] == "loopvar" and zob_new[1] == h)
+            # unchanged: the loop-carried symbol of this loop, or (a loop that never assigns it) whatever it was on entry
+            hash_changed = not (zob_new[0] in ("loopvar", "init") or T.is_const(zob_new))
             if not entries and not hash_changed:
                 continue
             found += 1
